@@ -97,6 +97,59 @@ def _consumers(f, effs):
     return sched, enq, drops, fwd
 
 
+def _busy_repr(P):
+    """how ChannelInner records "a transmission is in progress": ('flag', bool field) on the pinned tree, or — after a private
+    representation change — ('opt', field of type Option<SimTime>) holding the finish time while busy"""
+    a = P.adts.get(CH + 'ChannelInner') or {}
+    flds = [fd for v in a.get('variants', []) for fd in v['fields']]
+    for fd in flds:
+        if fd['n'] == 'busy' and fd['ty'] == 'bool':
+            return ('flag', 'busy')
+    for fd in flds:
+        if fd['ty'].startswith('std::option::Option<des::time::SimTime'):
+            return ('opt', fd['n'])
+    for fd in flds:
+        if fd['ty'] == 'bool':
+            return ('flag', fd['n'])
+    return ('flag', 'busy')
+
+
+def _busy_truth(P, a):
+    """True/False if the atom states that the channel is busy / idle, else None"""
+    kind, name = _busy_repr(P)
+    if kind == 'flag':
+        if a and a[0] == 'bool' and a[1][0] == 'field' and a[1][2] == name:
+            return a[2]
+        return None
+    st = option_state(a) if a else None
+    if st and any(x[0] == 'field' and x[2] == name for x in walk(st[1])):
+        return st[0] == 'some'
+    return None
+
+
+def _busy_writes(P, f, effs=None):
+    """(sets, clears): lists of (block, value-or-T) for stores that mark the channel busy (with finish time T where known) / idle"""
+    kind, name = _busy_repr(P)
+    sets, clears = [], []
+    if effs is not None:
+        ws = [(e[5], e[4]) for e in effs if e[0] == 'w' and e[2] == name]
+    else:
+        ws = [(b, f.expr_rvalue(st['r'], b, i)) for (b, i, st) in f.writes_to_field(name)]
+    for b, v in ws:
+        v = peel(v) if v is not None else None
+        if kind == 'flag':
+            if v == ('int', 1):
+                sets.append((b, None))
+            elif v == ('int', 0):
+                clears.append((b, None))
+        else:
+            if v is not None and v[0] == 'agg' and str(v[1]).endswith('Option::Some'):
+                sets.append((b, v[2][0]))
+            elif v is not None and v[0] == 'agg' and str(v[1]).endswith('Option::None'):
+                clears.append((b, None))
+    return sets, clears
+
+
 def _acc_role(P):
     """role: the queue's byte counter = the field of Buffer that Buffer::enqueue increases by Message::length"""
     fe = P.fns.get(CH + 'Buffer::enqueue')
@@ -194,15 +247,15 @@ def r2_admission(ctx):
     if ctx.floor('policy call in send_message', len(pol), 1) and ctx.floor('schedules in send_message', len(tx), 2):
         def busy_only(atoms, want):
             rel = [a for a in atoms if a[0] in ('bool', 'cmp')]
-            flags = [a for a in rel if a[0] == 'bool' and a[1][0] == 'field' and a[1][2] == 'busy']
-            return len(flags) == 1 and flags[0][2] is want, rel
+            flags = [a for a in rel if _busy_truth(ctx.P, a) is not None]
+            return len(flags) == 1 and _busy_truth(ctx.P, flags[0]) is want, rel
         ok, rel = busy_only([a for _, a in f.guard_atoms(pol[0].b)], True)
-        others = [a for a in rel if not (a[0] == 'bool' and a[1][0] == 'field' and a[1][2] == 'busy')]
+        others = [a for a in rel if _busy_truth(ctx.P, a) is None]
         ctx.check(ok and not others, 'policy-iff-busy', 'the drop/queue policy is applied iff the channel is busy (the decision depends on the busy flag only)',
                   pol[0].where(), [show_atom(a) for a in rel])
         for s in tx:
             atoms = [a for _, a in f.guard_atoms(s.b)]
-            ok2 = any(a[0] == 'bool' and a[1][0] == 'field' and a[1][2] == 'busy' and a[2] is False for a in atoms)
+            ok2 = any(_busy_truth(ctx.P, a) is False for a in atoms)
             ctx.check(ok2, 'transmit-iff-idle', 'a transmission starts only when the channel is idle', s.where(), [show_atom(a) for a in atoms])
     # table of handle
     n = 0
@@ -303,7 +356,7 @@ def r4_idle_path(ctx):
             continue
         effs = path_effects(f, path)
         atoms = [a for _, a in path_atoms(f, path, decs)]
-        idle = any(a[0] == 'bool' and a[1][0] == 'field' and a[1][2] == 'busy' and a[2] is False for a in atoms)
+        idle = any(_busy_truth(ctx.P, a) is False for a in atoms)
         if not idle:
             continue
         n += 1
@@ -313,6 +366,10 @@ def r4_idle_path(ctx):
         w_fin = [e for e in effs if e[0] == 'w' and e[2] == 'transmission_finish_time']
         if not setb and len(w_busy) == 1 and len(w_fin) == 1:
             setb = [('stores', w_fin[0][4])]
+        if not setb and _busy_repr(ctx.P)[0] == 'opt':
+            sets_, _cl = _busy_writes(ctx.P, f, effs)
+            if len(sets_) == 1 and sets_[0][1] is not None:
+                setb = [('stores', sets_[0][1])]
         unb = [e for e in effs if e[0] == 'c' and e[1].callee == SINK_ADD and any(x[0] == 'agg' and 'ChannelUnbusyNotif' in x[1] for x in walk(e[2][1]))]
         ex = [e for e in effs if e[0] == 'c' and e[1].callee == SINK_ADD and any(x[0] == 'agg' and 'MessageExitingConnection' in x[1] for x in walk(e[2][1]))]
         # busy != 0 decision
@@ -335,8 +392,13 @@ def r4_idle_path(ctx):
     ctx.floor('idle paths of send_message', n, 2)
     g = ctx.P.fns.get(CH + 'Channel::set_busy_until')   # may have been inlined into send_message (handled above)
     if g:
-        wb = g.writes_to_field('busy'); wt = g.writes_to_field('transmission_finish_time')
-        ctx.check(len(wb) == 1 and len(wt) == 1, 'set-busy-until', 'set_busy_until sets the busy flag and the finish time', g.where())
+        if _busy_repr(ctx.P)[0] == 'flag':
+            wb = g.writes_to_field('busy'); wt = g.writes_to_field('transmission_finish_time')
+            okb = len(wb) == 1 and len(wt) == 1
+        else:
+            sets_, _cl = _busy_writes(ctx.P, g)
+            okb = len(sets_) == 1 and sets_[0][1] is not None and peel(sets_[0][1])[0] == 'arg'
+        ctx.check(okb, 'set-busy-until', 'set_busy_until sets the busy flag and the finish time', g.where())
 
 
 def r5_unbusy(ctx):
@@ -344,8 +406,12 @@ def r5_unbusy(ctx):
     f = ctx.anchor(CH + 'Channel::unbusy')
     if not f:
         return
-    wb = f.writes_to_field('busy')
-    ctx.check(len(wb) >= 1 and all('false' in show(f.expr_rvalue(st['r'], b, i)) or f.expr_rvalue(st['r'], b, i) == ('int', 0) for b, i, st in wb), 'clears-busy',
+    wb = f.writes_to_field(_busy_repr(ctx.P)[1])
+    if _busy_repr(ctx.P)[0] == 'opt':
+        sets_, clears_ = _busy_writes(ctx.P, f)
+        ctx.check(len(clears_) >= 1 and not sets_, 'clears-busy', 'unbusy clears the busy flag', f.where())
+    else:
+      ctx.check(len(wb) >= 1 and all('false' in show(f.expr_rvalue(st['r'], b, i)) or f.expr_rvalue(st['r'], b, i) == ('int', 0) for b, i, st in wb), 'clears-busy',
               'unbusy clears the busy flag', f.where())
     n = 0
     for path, outcome, decs in fn_paths(ctx, f):
@@ -363,8 +429,8 @@ def r5_unbusy(ctx):
                 a = ev[1]
                 if pending and a[0] == 'is' and a[1][0] == 'call' and a[1][1] == CH + 'Buffer::dequeue':
                     last_deq = a[2]; last_busy = None; pending = False
-                if a[0] == 'bool' and a[1][0] == 'field' and a[1][2] == 'busy':
-                    last_busy = a[2]
+                if _busy_truth(ctx.P, a) is not None:
+                    last_busy = _busy_truth(ctx.P, a)
         ok = last_deq == 'None' or last_busy is True
         ctx.check(ok, 'idle-with-queue',
                   'unbusy returns only after observing the queue empty or the channel busy again — otherwise queued messages stay stuck once the channel is idle '
